@@ -66,6 +66,9 @@ def step_items(kind, k):
     if kind == "branch-stop":
         # one arm stops the prank, the other does not
         return cd2 + [("PUSH", 1 << k), "AND", ("PUSHL", f"bs{k}"), "JUMPI"] + e2e.call_cheat("stopPrank()", []) + ["POP", ("LABEL", f"bs{k}")]
+    if kind == "precompile":
+        # a call to the identity precompile is a call made by the pranking frame: it consumes a one-shot prank
+        return [("PUSH", 32), ("PUSH", 0x700), ("PUSH", 32), ("PUSH", 0x100), ("PUSH", 4), "GAS", "STATICCALL", "POP"]
     if kind == "cheat":
         return e2e.call_cheat("warp(uint256)", [[("PUSH", 99)]]) + ["POP", "TIMESTAMP", ("PUSH", out), "MSTORE"]
     if kind == "create":
@@ -82,7 +85,7 @@ def child_init():
 
 
 KINDS = ["prank", "prank2", "startPrank", "startPrank2", "stopPrank", "call", "staticcall", "nested", "nested-pranks", "cheat", "create",
-         "branch"]
+         "branch", "precompile"]
 PRANKS = {"prank", "prank2", "startPrank", "startPrank2"}
 
 
@@ -96,9 +99,10 @@ def admissible(hist):
             active = "start" if k.startswith("start") else "once"
         elif k == "stopPrank":
             active = None
-        elif k in ("call", "staticcall", "nested", "nested-pranks", "create") and active == "once":
+        elif k in ("call", "staticcall", "nested", "nested-pranks", "create", "precompile") and active == "once":
             active = None
-    return any(k in ("call", "staticcall", "nested", "nested-pranks", "create") for k in hist)
+    # (every program ends with one more observed CALL, so a history needs no observation of its own)
+    return any(k in ("call", "staticcall", "nested", "nested-pranks", "create") for k in hist) or bool(set(hist) & PRANKS)
 
 
 def prank_programs(maxlen):
@@ -381,6 +385,38 @@ def key_cheatcodes(run):
                         run.inconc(cls, f"addr/{nm}", res.status)
     except Exception as e:
         run.inconc(cls, "addr-twice", f"{type(e).__name__}: {e}")
+    # ---- vm.load on an account with symbolic storage agrees with the account's own SLOAD ---------------------------------------
+    try:
+        getter = ["PUSH0", "CALLDATALOAD", "SLOAD", "PUSH0", "MSTORE", ("PUSH", 32), "PUSH0", "RETURN"]
+        blob = e2e.selector("enableSymbolicStorage(address)") + OBS.to_bytes(32, "big")
+        for nm, slot in (("slot0", [("PUSH", 0)]), ("sym-slot", cd0)):
+            items = raw_cheat(e2e.SVM, blob, 0, 0)
+            items += e2e.call_cheat("load(address,bytes32)", [[("PUSH", OBS, 20)], slot], ret_words=1) + ["POP", ("PUSH", 0x80), "MLOAD"] + out(0)
+            items += slot + [("PUSH", 0x100), "MSTORE", ("PUSH", 32), ("PUSH", 0x420), ("PUSH", 32), ("PUSH", 0x100), ("PUSH", 0), ("PUSH", OBS, 20), "GAS", "CALL", "POP"]
+            p = families._mk_multi(f"keys#load-symbolic-{nm}", items + [("PUSH", 64), ("PUSH", 0x400), "RETURN"], {OBS: asm.assemble(getter)},
+                                   features=(nm,), ncd=2, balances=())
+            p.callvalue_zero = True
+            sevm, recs, hdata = progs.run_halmos(p, progs.Inputs(p))
+            good = [(r, d) for r, d in zip(recs, hdata) if r.error is None and d is not None and len(d) == 64]
+            if not good:
+                run.inconc(cls, f"load-symbolic/{nm}", f"no successful path ({[type(r.error).__name__ for r in recs]})")
+                continue
+            for r, d in good:
+                pc = z3.And(*[exact.inline(c) for c in r.conds]) if r.conds else z3.BoolVal(True)
+                w = words(d, 2)
+                q = [pc, w[0] != w[1]]
+                res = portfolio.solve(q, timeout=cap)
+                run.note_solver(res)
+                if res.status == "unsat":
+                    run.ok(cls, f"load-symbolic/{nm}")
+                elif res.status == "sat" and portfolio.solve(q, timeout=60, want_all=True).status == "sat":
+                    run.violation(cls, f"keys/load-symbolic/{nm}", "vm.load on an account with symbolic storage returns a word that can "
+                                  f"differ from the account's own SLOAD of that slot ({z3.simplify(w[0])} vs {str(z3.simplify(w[1]))[:80]})",
+                                  {"code": p.contracts[progs.THIS].hex()})
+                else:
+                    run.inconc(cls, f"load-symbolic/{nm}", res.status)
+    except Exception as e:
+        run.inconc(cls, "load-symbolic", f"{type(e).__name__}: {e}")
     # ---- vm.sign + ecrecover ---------------------------------------------------------------------------------------------
     try:
         ecr = [("PUSH", 36), "CALLDATALOAD", ("PUSH", 0x200), "MSTORE", ("PUSH", 0x400), "MLOAD", ("PUSH", 0x220), "MSTORE", ("PUSH", 0x420), "MLOAD",
